@@ -111,6 +111,39 @@ def run(ctx):
                         ctx.violation('torch propagate_beam(z=0, pad-then-crop) does not return the field (%dx%d)' % (n, m), rec,
                                       {'api': api, 'method': meth, 'what': 'zero_padcrop', 'odd': bool(n % 2 or m % 2)})
 
+    # ---- stacks of fields [k x m x n] (and [1 x k x m x n]): the composition laws hold field by field (the model's stack pipeline is
+    # `customStackT = map custom`, theorem gen_customStackT_eq).  A stack the implementation rejects is not judged.
+    for (kk, n, m, lead) in ((2, 6, 6, False), (3, 5, 7, False), (2, 8, 5, True), (3, 6, 6, False)):
+        for meth in ('as', 'tf'):
+            dx, lam, z, zc = W.rand_optics(rng, 'near')
+            z2 = rng.uniform(-3, 3)
+            us = np.stack([W.rand_field(rng, n, m, 'gauss') for _ in range(kk)])
+            if lead:
+                us = us[None]
+            scale = max(1.0, float(np.max(np.abs(us))))
+            rec = {'api': 'torch', 'method': meth, 'n': n, 'm': m, 'stack': kk, 'leading_one': lead, 'dx': dx, 'lam': lam, 'z': z, 'z2': z2}
+            ctx.case(('stack', meth, kk, n, m, lead), True)
+            ctx.count('stack/%s/k=%d' % (meth, kk))
+            for pad in ((False, False, False), (True, False, True)):
+                try:
+                    r0 = W.impl('torch', meth, us, dx, lam, 0.0, zero_padding=pad)
+                    back = W.impl('torch', meth, W.impl('torch', meth, us, dx, lam, z, zero_padding=pad), dx, lam, -z, zero_padding=pad)
+                    two = W.impl('torch', meth, W.impl('torch', meth, us, dx, lam, z, zero_padding=pad), dx, lam, z2, zero_padding=pad)
+                    one = W.impl('torch', meth, us, dx, lam, z + z2, zero_padding=pad)
+                except Exception:
+                    ctx.count('stack/rejected-by-implementation')
+                    continue
+                tag = 'pad-then-crop' if pad[0] else 'no padding'
+                if r0.shape != us.shape or not W.maxdiff(r0, us) <= 1e-4 * scale:
+                    ctx.violation('torch %s at distance 0 is not the identity on a stack of %d fields (%s, %dx%d, diff %.3g)'
+                                  % (meth, kk, tag, n, m, W.maxdiff(r0, us)), rec, {'api': 'torch', 'method': meth, 'what': 'zero_identity', 'stack': True})
+                elif not pad[0] and not W.maxdiff(back, us) <= 4e-3 * scale:
+                    ctx.violation('torch %s: -z does not undo z on a stack of %d fields (%dx%d, diff %.3g)' % (meth, kk, n, m, W.maxdiff(back, us)),
+                                  rec, {'api': 'torch', 'method': meth, 'what': 'inverse', 'stack': True})
+                elif not pad[0] and not W.maxdiff(two, one) <= 8e-3 * scale:
+                    ctx.violation('torch %s: z1 then z2 differs from z1 + z2 on a stack of %d fields (%dx%d, diff %.3g)' % (meth, kk, n, m, W.maxdiff(two, one)),
+                                  rec, {'api': 'torch', 'method': meth, 'what': 'composition', 'stack': True})
+
     # ---- kernel products through get_propagation_kernel
     import odak.learn.wave as LW
     for (n, m) in [(4, 5), (7, 7), (6, 3)]:
